@@ -292,6 +292,13 @@ func scriptSnapshotFigure8() []Event {
 		heal(), tick(1), tick(1), prop(1), tick(1), prop(1))
 }
 
+// scriptStaleApplyAck: node 3's apply thread is stalled with a batch that fills the apply budget;
+// meanwhile node 3 falls behind, is caught up by a snapshot beyond that batch (installed and
+// acknowledged by the append thread), and only then does the apply thread finish the old batch.
+func scriptStaleApplyAck() []Event {
+	return seq(camp(1), prop(1), pauseApply(3, 1), prop(1), isolate(3), prop(1), prop(1), compact(1, 0), heal(), tick(1), tick(1), pauseApply(3, 0), prop(1), tick(1), prop(1))
+}
+
 // scriptSnapshotDivergent: the follower that needs a snapshot is a deposed leader
 // with a long uncommitted tail; the snapshot status is reported and a heartbeat
 // goes out while the snapshot itself may still be in flight.
@@ -941,6 +948,15 @@ func poolSnapshot(tier string) (p pool) {
 			f8 := ddScn("snapshot-figure8", 3, ids(3), f, scriptSnapshotFigure8(), k, int(BDrop), 1, int(BDup), 1)
 			f8.Cfg = []NodeCfg{c}
 			p.dd = append(p.dd, f8)
+		}
+		if f.async {
+			c := f.cfg()
+			c.MaxCommittedSize = 20
+			c.ElectionTick, c.HeartbeatTick, c.Timeout = 10, 1, 10
+			sa := ddScn("stale-apply-ack", 3, ids(3), f, scriptStaleApplyAck(), k, int(BDrop), 1, int(BDup), 1, int(BCrash), 1)
+			sa.Cfg = []NodeCfg{c}
+			sa.PropSizes = []int{4, 30, 4, 4, 4, 4, 4}
+			p.dd = append(p.dd, sa)
 		}
 		if f.async {
 			p.dd = append(p.dd, ddScn("snapshot-overtakes", 3, ids(3), f, scriptSnapshotOvertakes(), k, fl...))
